@@ -1,6 +1,7 @@
 """C17 — compilation is a pure function of its input files (structural clauses)."""
 from checks.common import Ctx
 from sa.report import Check
+from sa.rules import serial_rules as SRL
 from sa.rules import dep_rules as DRX
 from sa.rules import unordered as U
 from sa.rules import synth_rules as SY
@@ -27,6 +28,7 @@ def main(tier):
     chk.run("R-GLOBALSTATE", U.globalstate, cx.repo, floor=8, control=lambda: ctl)
     chk.run("R-IMPURE", U.impure, cx.repo, floor=30, control=lambda: ctl)
     chk.run("R-SKELMUT", SY.skelmut, cx.repo, floor=5)
+    chk.run("R-SERIALFILTER", SRL.serialfilter, cx.repo, floor=2)
     chk.run("R-MUTDEFAULT", U.mutdefault, cx.repo, floor=300, control=lambda: U.control_mutdefault(cx.repo))
     if tier == "thorough":
         # whole repository (tooling scripts, generators) as a cross-reference; findings outside the
